@@ -239,7 +239,7 @@ struct Mark {
 };
 
 // position comparison with a classified symptom. obs/exp: index, or `size` for end(), -2 null, -3 outside
-bool eq_pos(char const* name, long long obs, long long exp, long long size)
+[[maybe_unused]] bool eq_pos(char const* name, long long obs, long long exp, long long size)
 {
     if (obs == exp) { return true; }
     char sym[96];
@@ -886,7 +886,7 @@ struct Drv {
             }
         }
         {
-            vf::crumb(C::name, "set()", "default", "");
+            vf::crumb(C::name, "set()", "default");
             Set s;
             M em = model();
             vf::cover("set()", h(em), true);
@@ -913,7 +913,7 @@ struct Drv {
                 check_state(s, m);
             }
             {
-                vf::crumb(C::name, "set(comp)", "default", "");
+                vf::crumb(C::name, "set(comp)", "default");
                 Set s{typename Set::key_compare{}};
                 M em = model();
                 vf::cover("set(comp)", h(em), true);
@@ -1363,13 +1363,13 @@ struct MDrv {
     {
         std::vector<int> none;
         {
-            vf::crumb(C::name, "multiset()", "default", "");
+            vf::crumb(C::name, "multiset()", "default");
             Set s;
             vf::cover("multiset()", vf::fnv(C::name), true);
             check(s, none);
         }
         {
-            vf::crumb(C::name, "multiset(comp)", "default", "");
+            vf::crumb(C::name, "multiset(comp)", "default");
             Set s{typename Set::key_compare{}};
             vf::cover("multiset(comp)", vf::fnv(C::name), true);
             check(s, none);
